@@ -37,6 +37,12 @@ CHECKS["C04"] = dict(
     text="History per object: PUT by the reference build, upgrade, GET by the current build; every object the reference accepts and reconstructs itself must be reproduced byte-exactly by the current build without panic or process death, as long as both declare the same format versions. The history has one shape; what is searched from the seed is the object population (compressor x level x strategy x window x memLevel x plaintext shape x wrapper), with reach probes over the reference estimator's choices. A clean batch is evidence, not proof.",
     note="Trusted: /verif/reference is a faithful frozen copy of the pinned release (src/*.rs verbatim, lib.rs without the #[no_mangle] wrappers) plus recorded fixes. A changed version constant turns the layer's judgement into an announcement. Rollback reads are not judged.")
 
+CHECKS["C08"] = dict(
+    engine="simstore-buggify", category="exploration", design_ref="DESIGN.md 5.5",
+    technique="deterministic simulation with a cooperative fault point (buggify) at the estimator seam: a guarded hook overwrites a seeded subset of the estimated parameter fields with other emit-able values; oracle = Err or exact reconstruction + parameters re-read equal + plaintext/consumed length unchanged; container level with the perturbation active for every scanner probe; replayable explicit perturbations",
+    text="Seeded search over (stream, parameter vector) pairs: the real estimator runs, then 1-8 fields are replaced by values from the range the estimator can emit (read off its code), with both verify settings and at container level. Any panic, any accepted-but-differently-reconstructed stream, any re-read parameter difference and any dependence of plaintext/consumed length on the estimate is a violation. The product space is sampled, so a clean batch is evidence, not proof.",
+    note="Trusted: the emit-able ranges were read off the estimator's code (add-policy limit 0-255 after the recorded fix, chain depth 1-4096, 3-byte distance 0-32768, the candidate hash list, the lazy rows of the zlib tables). Correction size is recorded, not judged.")
+
 NOT_APPLICABLE = {
     "C01": "pure function of the input file (for all byte strings F): no schedule, I/O outcome, resource limit or crash point in the statement; truncating/flipping foreign input is input generation, not fault injection. Incidental coverage only (fault-free round trip is a precondition of every C11-C13 workload and rejections are counted).",
     "C02": "pure function of the input stream and the verify flag; no seam for the environment to vary. Incidental: the unperturbed runs of C08 and the current-build reads of C04 execute the identity.",
@@ -49,7 +55,6 @@ NOT_APPLICABLE = {
 }
 
 PENDING = {
-    "C08": "applicable (buggify at the estimator seam, DESIGN.md 5.5) but the check is not built yet in this revision; not claimed until it runs",
 }
 
 def main():
